@@ -8,12 +8,12 @@ for d in sorted(glob.glob('/verif/seeded/*/')):
     m=json.load(open(d+'meta.json'))
     m["initially_missed"]=label in notes
     if label in notes: m["strengthening"]=notes[label]
-    m["round"]={"a":1,"b":1,"c":2,"d":2,"e":3,"f":3,"g":4,"h":4,"i":5,"j":5,"k":6,"l":6}[label[-1]]
+    m["round"]={"a":1,"b":1,"c":2,"d":2,"e":3,"f":3,"g":4,"h":4,"i":5,"j":5,"k":6,"l":6,"m":7,"n":7}[label[-1]]
     json.dump(m,open(d+'meta.json','w'),indent=1)
     res=m["checks_run"]["results"].get(m["breaks_property"],{})
     rows.append((label,m["breaks_property"],m["summary"],m["needs"],", ".join(res.get("signatures",[])[:3]),("yes, after strengthening: "+notes[label]) if label in notes else "yes"))
 with open('/verif/seeded/README.md','w') as f:
-    f.write("# Independent property-breaking changes\n\nWritten by sub-agents that were given only a property's text and a scratch worktree of /repo (nothing from /verif); labels ending in a/b are round 1, c/d round 2 (asked for subtler, multi-scan / fault-dependent changes and told what round 1 had produced), e/f round 3 (asked for unusual configurations, cluster shapes, ties and single-call faults), g/h round 4 (all twenty properties in two batches; same brief, told everything earlier rounds had produced), i/j round 5 and k/l round 6 (the same again). Each was confirmed in a throw-away worktree (repository suite passes with it; its demonstration fails with it and passes without it) and then run against the property's quick check via an overlay build (`demo/eval_seed.sh`). `demo/apply_seed_check.sh` does the same with `git -C /repo apply` / `git -C /repo checkout -- .`.\n\n")
+    f.write("# Independent property-breaking changes\n\nWritten by sub-agents that were given only a property's text and a scratch worktree of /repo (nothing from /verif); labels ending in a/b are round 1, c/d round 2 (asked for subtler, multi-scan / fault-dependent changes and told what round 1 had produced), e/f round 3 (asked for unusual configurations, cluster shapes, ties and single-call faults), g/h round 4 (all twenty properties in two batches; same brief, told everything earlier rounds had produced), i/j round 5, k/l round 6 and m/n round 7 (the same again). Each was confirmed in a throw-away worktree (repository suite passes with it; its demonstration fails with it and passes without it) and then run against the property's quick check via an overlay build (`demo/eval_seed.sh`). `demo/apply_seed_check.sh` does the same with `git -C /repo apply` / `git -C /repo checkout -- .`.\n\n")
     n=len(rows); missed=sum(1 for r in rows if r[0] in notes)
     f.write("%d changes; %d were caught by the checks as they stood, %d were missed at first and are caught after the strengthening described in the last column.\n\n"%(n,n-missed,missed))
     f.write("| id | property | change | needs | signatures reported by the property's check | caught |\n|---|---|---|---|---|---|\n")
